@@ -1600,6 +1600,12 @@ func (x *Exec) forStmt(st *State, t *ast.ForStmt) []*State {
 			m[idxKey(cv.idx)] = cv
 		}
 	}
+	if t.Cond != nil && !loopHasBreak(t.Body) {
+		// the loop can only be left through its header: the negated condition holds afterwards
+		nc := x.cond(after, t.Cond).Negate()
+		nc.Loop = true
+		after.guards = append(after.guards, nc)
+	}
 	outs := []*State{after}
 	for _, b := range body {
 		if b.term == 1 {
@@ -1607,6 +1613,57 @@ func (x *Exec) forStmt(st *State, t *ast.ForStmt) []*State {
 		}
 	}
 	return outs
+}
+
+// loopHasBreak reports whether body contains a break that leaves the loop
+// (unlabeled and not nested in an inner loop/switch/select, or any labeled break).
+func loopHasBreak(body *ast.BlockStmt) bool {
+	found := false
+	var visit func(n ast.Node, shielded bool)
+	visit = func(n ast.Node, shielded bool) {
+		if n == nil || found {
+			return
+		}
+		switch t := n.(type) {
+		case *ast.BranchStmt:
+			if t.Tok == token.BREAK && (t.Label != nil || !shielded) {
+				found = true
+			}
+			if t.Tok == token.GOTO {
+				found = true
+			}
+		case *ast.ForStmt:
+			visit(t.Body, true)
+		case *ast.RangeStmt:
+			visit(t.Body, true)
+		case *ast.SwitchStmt:
+			visit(t.Body, true)
+		case *ast.TypeSwitchStmt:
+			visit(t.Body, true)
+		case *ast.SelectStmt:
+			visit(t.Body, true)
+		case *ast.BlockStmt:
+			for _, s := range t.List {
+				visit(s, shielded)
+			}
+		case *ast.IfStmt:
+			visit(t.Body, shielded)
+			visit(t.Else, shielded)
+		case *ast.CaseClause:
+			for _, s := range t.Body {
+				visit(s, shielded)
+			}
+		case *ast.CommClause:
+			for _, s := range t.Body {
+				visit(s, shielded)
+			}
+		case *ast.LabeledStmt:
+			visit(t.Stmt, shielded)
+		case *ast.FuncLit:
+		}
+	}
+	visit(body, false)
+	return found
 }
 
 // survivors returns the forwarded cells of the pre-loop state that no
